@@ -458,7 +458,7 @@ func (d *Document) AddImageFromData(imageData []byte, fileName string, format Im
 	safeFileName := generateSafeImageFileName(imageID, fileName, format)
 
 	// 生成关系ID，注意：rId1保留给styles.xml，图片从rId2开始
-	relationID := fmt.Sprintf("rId%d", len(d.documentRelationships.Relationships)+2)
+	relationID := d.nextDocumentRelationshipID()
 
 	// 添加图片关系，使用安全文件名
 	d.documentRelationships.Relationships = append(d.documentRelationships.Relationships, Relationship{
@@ -512,7 +512,7 @@ func (d *Document) AddImageFromDataWithoutElement(imageData []byte, fileName str
 	safeFileName := generateSafeImageFileName(imageID, fileName, format)
 
 	// 生成关系ID，注意：rId1保留给styles.xml，图片从rId2开始
-	relationID := fmt.Sprintf("rId%d", len(d.documentRelationships.Relationships)+2)
+	relationID := d.nextDocumentRelationshipID()
 
 	// 添加图片关系，使用安全文件名
 	d.documentRelationships.Relationships = append(d.documentRelationships.Relationships, Relationship{
